@@ -176,11 +176,11 @@ def _gen_op(rng, g, cfg, fault_now):
         return {"k": "set", **_tn(rng), "key": rng.randrange(64), "v": rng.choice([None, _val(rng), _val(rng)]), "list": [_val(rng) for _ in range(rng.randint(0, 3))]}
     if g == "set_idx":
         return {"k": "set_idx", **_tn(rng), "lk": rng.randrange(16), "i": rng.randrange(64), "mode": rng.choice(["ow", "ins", "del", "splice", "oob"]),
-                "v": [_val(rng), _val(rng)]}
+                "v": [_val(rng), _val(rng)], "neg": rng.random() < 0.25}
     if g == "append":
         return {"k": "append", **_tn(rng), "lk": rng.randrange(16), "v": _val(rng)}
     if g == "replace":
-        w = rng.choice(["val", "val", "self", "none", "list"])
+        w = rng.choice(["val", "val", "self", "none", "list", "list_self"])
         return {"k": "replace", **_tn(rng), "with": w, "v": [_val(rng), _val(rng)], "keep_old": rng.random() < 0.5}
     if g == "pop":
         return {"k": "pop", **_tn(rng)}
@@ -194,7 +194,8 @@ def _gen_op(rng, g, cfg, fault_now):
     if g == "builder":
         b = rng.choice(sorted(SELECT_BUILDERS))
         return {"k": "builder", **_tn(rng), "b": b, "copy": rng.random() < (0.7 if cfg["mode"] == "C09" else 0.35),
-                "bad": bool(fault_now and "bad_builder_arg" in faults), "append": rng.random() < 0.8}
+                "bad": bool(fault_now and "bad_builder_arg" in faults), "append": rng.random() < 0.8, "arg_expr": rng.random() < 0.3,
+                "on_root": rng.random() < 0.3}
     if g == "wrap":
         return {"k": "wrap", "t": rng.randrange(64), "n": rng.randrange(4096), "b": rng.choice(WRAP_BUILDERS), "copy": rng.random() < (0.8 if cfg["mode"] == "C09" else 0.4),
                 "bad": bool(fault_now and "bad_builder_arg" in faults)}
@@ -478,6 +479,8 @@ def _apply(world, op, st):
         key = lks[op["lk"] % len(lks)]
         L = n.args[key]
         i = op["i"] % len(L)
+        if op.get("neg"):
+            i -= len(L)  # the same position addressed from the end (negative indexes are accepted by set())
         m = op["mode"]
         if m == "ow":
             n.set(key, world.value(op["v"][0]), index=i)
@@ -514,12 +517,17 @@ def _apply(world, op, st):
             n.replace(n)
         elif w == "none":
             n.replace(None)
+        elif w == "list_self":
+            if n.index is None:
+                res["outcome"] = "skip-notlist"
+                return res
+            n.replace([world.value(op["v"][0]), n])  # "insert a sibling before me"
         else:
             if n.index is None:
                 res["outcome"] = "skip-notlist"
                 return res
             n.replace([world.value(op["v"][0]), world.value(op["v"][1])])
-        if w != "self" and op["keep_old"] and n.parent is None:
+        if w not in ("self", "list_self") and op["keep_old"] and n.parent is None:
             world.pool.append(n)
         return res
 
@@ -630,6 +638,8 @@ def _apply(world, op, st):
         t, n, nodes = target(op["t"], op["n"])
         ni = next(i for i, x in enumerate(nodes) if x is n)
         sel = next((x for x in nodes[ni:] + nodes if isinstance(x, exp.Select)), None)
+        if op.get("on_root") and isinstance(t, exp.Query) and hasattr(t, op["b"]):
+            sel = t  # Select or SetOperation root: set operations forward select() to both branches
         if sel is None:
             res["outcome"] = "skip-noselect"
             return res
@@ -639,6 +649,11 @@ def _apply(world, op, st):
         if op["bad"]:
             arg = BAD_SQL
             st["faults"]["bad_builder_arg"] += 1
+        if op.get("arg_expr") and isinstance(arg, str) and not op["bad"]:
+            try:
+                arg = exp.maybe_parse(arg, into=getattr(exp, "Join") if b == "join" else None) if b not in ("lateral", "window") else arg
+            except Exception:
+                pass
         cp = op["copy"]
         if cp:
             res["nm"] = [t]
